@@ -25,6 +25,13 @@ Clause ids (`what`)
   read.same_for_every_way_of_passing_the_lines   lines with terminators / through an instance give the chart of the split text
   read.results_are_independent                   editing a second result of the same text leaves the first alone
   write.second_write_denotes_the_same_chart, write.charts_are_independent
+  write_after_edit.<aspect>  the SAME object written once, then changed through public operations (offsets / columns / bpm / multipliers
+                           edited through the list properties or the stack, an item appended, new lists assigned, metadata set, rate()),
+                           then written again: the second text is well-formed and denotes the chart AS IT IS NOW (< 1 ms)
+  read.same_text_read_again_after_an_edit   a result was edited in place and another text was read; the same text read again gives the same chart
+  file.read_file_of_a_path_that_held_another_file   read_file from a path whose earlier (longer / shorter) content was read before
+  file.write_file_over_another_file   write_file onto a path that holds another chart's file (longer / shorter / written by write_file and
+                           read back): the file afterwards is exactly the text of the chart written last, and read_file gives that chart
 Classes of inputs that report under ids of their own (so that the plain clause stays exercised by every other case):
   <phase>.background[events:video_first]   a video event stands before the background event in [Events]
   <phase>.background[events:no_comments], <phase>.samples[events:no_comments]   [Events] without the editor's '//' lines
@@ -464,6 +471,8 @@ def gen_layout(rng):
         path=rng.choice(["str", "Path"]),                                   # argument type of read_file
         second_reader=rng.random() < 0.3,                                   # a second result of the same text is edited afterwards
     )
+    lay["prior_file"] = rng.choice([None, "longer", "shorter"])             # read_file: the path held another file, which was read first
+    lay["again"] = rng.random() < 0.2                                       # a result edited in place, another text read, then the same text again
     return lay
 
 
@@ -476,7 +485,7 @@ def gen_text_case(rng, K):
         t = _time(rng)
         if objs and rng.random() < 0.2:
             t = rng.choice(objs)["t"]  # a tie: two objects at exactly the same time (any columns)
-        fields = [rng.choice([0, 0, 2, 4, 8, 10, 14, 1, 3, 15]), rng.randrange(4), rng.randrange(4), rng.choice([0, 0, 1, 7]), rng.choice([0, 0, 35, 100]), rng.choice(FILES)]
+        fields = [rng.choice([0, 0, 2, 4, 8, 10, 14, 1, 3, 15]), rng.randrange(4), rng.randrange(4), rng.choice([0, 0, 1, 7, 99, 2147483647]), rng.choice([0, 0, 35, 100]), rng.choice(FILES)]
         o = dict(x=_x_in_column(rng, c, K, rng.choice(["centre", "any", "any"])), y=rng.choice([192, 0, 384]), t=t, hs=fields)
         if rng.random() < 0.4:
             o["end"] = t + rng.choice([1, 50, 500.5, 100000, 0, 0.25] if not isinstance(t, int) else [1, 50, 500, 100000, 0])  # 0: end == start
@@ -497,7 +506,7 @@ def gen_text_case(rng, K):
         t = _time(rng)
         if tps and rng.random() < 0.3:
             t = rng.choice(tps)["t"]  # a tie: two timing points (tempo / SV, any values) at exactly the same time
-        tps.append(dict(t=t, bl=rng.choice([repr(bl), repr(bl), f"{bl:.12f}".rstrip("0") + "0"]), meter=rng.choice([4, 3, 7]), ss=rng.randrange(4), si=rng.choice([0, 1, 2]), vol=rng.choice([60, 100, 5]), un=int(un), eff=rng.choice([0, 0, 1, 1] + EDGE["effects"])))
+        tps.append(dict(t=t, bl=rng.choice([repr(bl), repr(bl), f"{bl:.12f}".rstrip("0") + "0"]), meter=rng.choice([4, 3, 7, 1, 16]), ss=rng.randrange(4), si=rng.choice([0, 1, 2, 99]), vol=rng.choice([60, 100, 5, 0]), un=int(un), eff=rng.choice([0, 0, 1, 1] + EDGE["effects"])))
     samples = [dict(t=_time(rng), layer=rng.choice([0, 0, 1, 2, 3]), file=rng.choice(["clap.wav", "é.ogg", "a b.wav", "sb\\Ｓ～.wav"]), quoted=rng.random() < 0.8, vol=rng.choice([70, 100, 0])) for _ in range(rng.randrange(0, 3))]
     tags = _tags(rng)
     sep = rng.choice([" ", " ", "  "])
@@ -523,7 +532,10 @@ def gen_text_case(rng, K):
         ks = list(meta)
         rng.shuffle(ks)
         meta = {k: meta[k] for k in ks}
-    return dict(kind="text", K=K, meta=meta, bg=rng.choice(["BG.png", "my: bg.png", "é.jpg", "a,b.jpg", "", "ｂｇ　１.png"]), samples=samples, tps=tps, objs=objs, pad=False, layout=gen_layout(rng))
+    spec = dict(kind="text", K=K, meta=meta, bg=rng.choice(["BG.png", "my: bg.png", "é.jpg", "a,b.jpg", "", "ｂｇ　１.png"]), samples=samples, tps=tps, objs=objs, pad=False, layout=gen_layout(rng))
+    if rng.random() < 0.25:
+        spec["then_edit"] = gen_edits(rng)  # what was read is written, edited, written again
+    return spec
 
 
 def _objs(spec):
@@ -610,10 +622,10 @@ LIST_NAMES = ("hits", "holds", "bpms", "svs", "samples")
 def gen_chart_case(rng, K):
     """JSON-able spec of one in-memory chart (build_chart rebuilds it through the real constructors)."""
     def nf():
-        return [rng.choice([0, 0, 2, 8, 14, 1, 15]), rng.randrange(4), rng.randrange(4), rng.choice([0, 0, 3]), rng.choice([0, 0, 40, 100]), rng.choice(FILES)]
+        return [rng.choice([0, 0, 2, 8, 14, 1, 15]), rng.randrange(4), rng.randrange(4), rng.choice([0, 0, 3, 99, 2147483647]), rng.choice([0, 0, 40, 100]), rng.choice(FILES)]
 
     def tf():
-        return [rng.randrange(4), rng.choice([0, 1]), rng.choice([50, 100, 5]), rng.random() < 0.3]
+        return [rng.randrange(4), rng.choice([0, 1, 99]), rng.choice([50, 100, 5, 0]), rng.random() < 0.3]
 
     def tie(rows, t):
         return rng.choice(rows)[0] if rows and rng.random() < 0.25 else t  # two rows of a list at exactly the same time
@@ -625,7 +637,7 @@ def gen_chart_case(rng, K):
     for _ in range(0 if shape in ("hits_only", "empty") else rng.randrange(1, 3)):
         holds.append([tie(hits + holds, _time(rng)), rng.randrange(K), rng.choice([0.2, 1, 50.5, 500, 99999.9, 0, 0.001, 0.999, 1234567.75])] + nf())  # 0: a hold that ends where it starts
     for _ in range(rng.choice([1, 1, 1, 2, 2, 3, 0])):  # 0: a chart without any tempo point
-        bpms.append([tie(bpms, _time(rng)), _bpm(rng), rng.choice([4, 3, 7])] + tf())
+        bpms.append([tie(bpms, _time(rng)), _bpm(rng), rng.choice([4, 3, 7, 1, 16])] + tf())
     for _ in range(rng.randrange(0, 3)):
         svs.append([tie(svs + bpms, _time(rng)), _mult(rng)] + tf())
     samples = [[_time(rng), rng.choice(["clap.wav", '"clap.wav"', "é.ogg", '"sb\\Ｓ～　１.wav"']), rng.choice([70, 100, 0])] for _ in range(rng.randrange(0, 3))]
@@ -648,6 +660,9 @@ def gen_chart_case(rng, K):
     spec["numbers"] = rng.choice(["py", "py", "py", "numpy", "float"])  # python numbers as generated / numpy scalars / every time a float
     spec["file"] = dict(on=rng.random() < 0.2, path=rng.choice(["str", "Path"]), over_existing=rng.random() < 0.5)
     spec["second_chart"] = rng.random() < 0.3
+    spec["file"]["existing"] = rng.choice(["longer", "shorter", "other_chart"])  # what the path holds when over_existing
+    if rng.random() < 0.3:
+        spec["then_edit"] = gen_edits(rng)
     return spec
 
 
@@ -783,6 +798,110 @@ def _edit_chart(m):
     m.background_file_name = "edited.png"
 
 
+EDIT_OPS = ("shift", "stack_shift", "columns", "values", "append", "assign_lists", "empty_lists", "meta", "rate", "samples")
+
+
+def gen_edits(rng):
+    """1..3 public operations applied to a chart object between two writes (each keeps the chart inside the property's domain)"""
+    return rng.sample(EDIT_OPS, rng.choice([1, 1, 2, 3]))
+
+
+def apply_edits(m, ops, K):
+    """-> the object to write next (the same object; for 'rate' what rate() returns).  Public operations only."""
+    from reamber.osu.OsuHit import OsuHit
+    from reamber.osu.OsuHold import OsuHold
+    from reamber.osu.OsuBpm import OsuBpm
+    from reamber.osu.OsuSv import OsuSv
+    from reamber.osu.OsuSample import OsuSample
+    from reamber.osu.lists.OsuBpmList import OsuBpmList
+    from reamber.osu.lists.OsuSvList import OsuSvList
+    from reamber.osu.lists.OsuSampleList import OsuSampleList
+    from reamber.osu.lists.notes.OsuHoldList import OsuHoldList
+    from reamber.osu.lists.notes.OsuHitList import OsuHitList
+
+    for op in ops:
+        if op == "shift":          # every list's offsets through the list property
+            for lst in (m.hits, m.holds, m.bpms, m.svs, m.samples):
+                if len(lst.df):
+                    lst.offset += 250.25
+        elif op == "stack_shift":  # the same through the stack
+            st = m.stack()
+            st.offset += 4000.5
+        elif op == "columns":
+            if len(m.hits.df):
+                m.hits.column = (m.hits.column + 1) % K
+            if len(m.holds.df):
+                m.holds.column = (K - 1) - m.holds.column
+                m.holds.length += 33.5
+        elif op == "values":
+            if len(m.bpms.df):
+                m.bpms.bpm *= 1.5
+                m.bpms.metronome = 5
+            if len(m.svs.df):
+                m.svs.multiplier *= 0.5
+            if len(m.hits.df):
+                m.hits.volume = 42
+        elif op == "append":
+            m.hits = m.hits.append(OsuHit(offset=4321.0, column=K - 1))
+            m.holds = m.holds.append(OsuHold(offset=-4321.5, column=0, length=10.5))
+            m.bpms = m.bpms.append(OsuBpm(offset=98765.0, bpm=111.0))
+        elif op == "assign_lists":
+            m.bpms = OsuBpmList([OsuBpm(offset=-10.0, bpm=222.0), OsuBpm(offset=5000.0, bpm=60.5, metronome=3)])
+            m.svs = OsuSvList([OsuSv(offset=12.0, multiplier=0.75)])
+            m.hits = OsuHitList([OsuHit(offset=float(100 * c), column=c) for c in range(K)])
+        elif op == "empty_lists":
+            m.holds = OsuHoldList([])
+            m.svs = OsuSvList([])
+        elif op == "meta":
+            m.title, m.version, m.tags = "edited: title", "v2 [edited]", ["new", "tag:s"]
+            m.background_file_name = "new bg.png"
+        elif op == "rate":
+            m = m.rate(1.25)
+        elif op == "samples":
+            m.samples = OsuSampleList([OsuSample(offset=5.0, sample_file='"late.wav"', volume=33)])
+        else:
+            raise ValueError(op)
+    return m
+
+
+def write_after_edit(spec, m, d_before):
+    """m has been written (d_before = what that text denotes).  Edit it, write it again: the text denotes the chart as it is NOW."""
+    out = []
+    try:
+        with _quiet():
+            m2 = apply_edits(m, spec["then_edit"], spec["K"])
+            now = chart_of(m2)
+    except Exception as ex:
+        return [], f"edit refused: {_exc(ex)}"  # what an edit does is not this property's business
+    try:
+        with _quiet():
+            t2 = _write_text(m2)
+    except Exception as ex:
+        return [("write_after_edit.succeeds", _exc(ex))], "written"
+    try:
+        d2 = den_osu(t2)
+    except DenError as ex:
+        return [("write_after_edit.well_formed", str(ex))], "written"
+    for a, d in compare(now, d2, 1.0):
+        out.append((f"write_after_edit.{a}", f"after {spec['then_edit']}: " + d))
+    for k, d in compare_meta_text_vs_memory(d2["meta"], now["meta"], "write"):
+        if k in ("Title", "Version", "Tags", "TitleUnicode", "Creator"):
+            out.append((f"write_after_edit.metadata[{k}]", f"after {spec['then_edit']}: " + d))
+    changed = bool(compare(d_before, d2, 0, exact_time=True)) or d_before["meta"] != d2["meta"]
+    return out, "written, text changed" if changed else "written, text unchanged"
+
+
+OTHER_TEXT = "\n".join(["osu file format v14", "", "[General]", "AudioFilename: other.mp3", "Mode: 3", "", "[Metadata]", "Title:other", "Version:other", "Tags:o t h e r", "", "[Difficulty]", "CircleSize:7", "",
+                        "[Events]", '0,0,"other.png",0,0', "", "[TimingPoints]", "-500,400,4,1,0,100,1,0", "100,-50,4,1,0,100,0,1", "", "[HitObjects]"] + [f"{36 + 73 * c},192,{1000 + c},1,0,0:0:0:0:" for c in range(7)] + [""])
+
+
+def _prior_text(text, how, eol="\n"):
+    """ANOTHER .osu text for a path: the text with 50 more hit objects (longer), or a seven-key text of 30 lines (shorter)"""
+    if how == "shorter":
+        return OTHER_TEXT
+    return text.rstrip("\r\n \t") + eol + eol.join(["256,192,%d,1,0,0:0:0:0:" % (777000 + i) for i in range(50)]) + eol
+
+
 # ----------------------------------------------------------------------------- read vs denotation (+ write after read)
 
 
@@ -855,21 +974,44 @@ def run_text_case(spec, files=False):
                 out.append(("read.results_are_independent", f"a second chart read from the same text was edited; the first one changed: {[k for k in got if got[k] != again[k]]}"))
         except Exception as ex:
             out.append(("read.results_are_independent", _exc(ex)))
+    if lay.get("again"):
+        # the text alone determines the chart: a result edited in place and another text read in between change nothing
+        try:
+            with _quiet():
+                m_e = _read_text(text)
+                _edit_chart(m_e)
+                _read_text(OTHER_TEXT)
+                g3 = chart_of(_read_text(text, lay.get("read_as", "split")))
+            if g3 != got:
+                out.append(("read.same_text_read_again_after_an_edit", f"an earlier result was edited in place and a seven-key text was read; the same text read again differs in {[k for k in got if got[k] != g3[k]]}"))
+        except Exception as ex:
+            out.append(("read.same_text_read_again_after_an_edit", _exc(ex)))
     if files:
         from pathlib import Path
         from reamber.osu.OsuMap import OsuMap
 
         with tempfile.TemporaryDirectory(prefix="c01_") as td:
             p = os.path.join(td, "in é.osu")
+            arg = Path(p) if lay.get("path") == "Path" else p
+            prior = lay.get("prior_file")
+            what = "file.read_file_of_a_path_that_held_another_file" if prior else "file.read_file_is_read"
+            if prior:
+                with open(p, "w", encoding="utf8", newline="") as fh:
+                    fh.write(_prior_text(text, prior, lay.get("eol", "\n")))
+                try:
+                    with _quiet():
+                        OsuMap.read_file(arg)
+                except Exception:  # noqa  (the other file is not this case's business)
+                    pass
             with open(p, "w", encoding="utf8", newline="") as fh:
                 fh.write(text)
             try:
                 with _quiet():
-                    gf = chart_of(OsuMap.read_file(Path(p) if lay.get("path") == "Path" else p))
+                    gf = chart_of(OsuMap.read_file(arg))
                 if compare(got, gf, 1e-9) or gf["meta"] != got["meta"]:
-                    out.append(("file.read_file_is_read", str(compare(got, gf, 1e-9) or "metadata differs")))
+                    out.append((what, (f"the path held another ({prior}) file, which was read first: " if prior else "") + str(compare(got, gf, 1e-9) or "metadata differs")))
             except Exception as ex:
-                out.append(("file.read_file_is_read", _exc(ex)))
+                out.append((what, _exc(ex)))
     # writing what was read
     try:
         with _quiet():
@@ -885,6 +1027,9 @@ def run_text_case(spec, files=False):
     for k, d in compare_meta_text_vs_text(want["meta"], d1["meta"]):
         out.append((f"write_after_read.metadata[{k}]", d))
     out += _drift(t1, d1)
+    if spec.get("then_edit") and not out:
+        more, _note = write_after_edit(spec, m, d1)
+        out += more
     return _uniq(out)
 
 
@@ -954,7 +1099,9 @@ def wholemap_read_vs_denotation(rep):
                  f"0..4 tags from pools of {len(TAGS)} + {len(WS_TAGS)} (such white space inside a tag; one or two spaces between tags, spaces at the ends); a quarter of the texts omit 1..8 keys or the whole [Editor] section, a quarter have the keys in another order. "
                  f"LAYOUT of the same content: LF / CRLF; no / one / several trailing blank lines; 0..2 blank lines between sections; 'Key: v' / 'Key:v' / padded; '//' lines and unknown keys in the key-value sections; a [Colours] section before / after [TimingPoints]; "
                  f"[Events] as the editor writes it, with a video event after / BEFORE the background, with break periods and storyboard sprites, and without the comment lines; handed to read() as split lines, as lines with terminators, through an instance; "
-                 f"read_file with str and Path (a third of the cases); a second result of the same text edited afterwards (30 %)")
+                 f"read_file with str and Path (a third of the cases), two thirds of those from a path that held another - 50 objects longer / 30-line seven-key - file which was read first; "
+                 f"a second result of the same text edited afterwards (30 %); the same text read again after a result was edited in place and a seven-key text was read (20 %); what was read is written, edited through 1..3 of {len(EDIT_OPS)} public operations "
+                 f"({', '.join(EDIT_OPS)}) and written again (25 %); value range: hit-sample index up to 2^31-1, sample index 99, volume 0, meters 1 and 16")
     rep.rule = "a case is one whole text and its layout; non-trivial when it has at least one object; each text is first parsed by the oracle itself (must be in the dialect, and must denote what the spec says)"
     explored, explored2, layouts = {}, {}, {}
     for i in range(-18, N):
@@ -1073,18 +1220,32 @@ def run_chart_case(spec, files=False):
     if files:
         with tempfile.TemporaryDirectory(prefix="c01_") as td:
             p = os.path.join(td, "out é.osu")
-            if fopt.get("over_existing"):  # the file exists already and is longer than what will be written
+            existing = fopt.get("existing", "longer") if fopt.get("over_existing") else None
+            wf = "file.write_file_text_is_write" if existing in (None, "longer") else "file.write_file_over_another_file"
+            if existing == "longer":  # the file exists already and is longer than what will be written
                 with open(p, "w", encoding="utf8") as fh:
                     fh.write(t1 + "\n[HitObjects]\n" + "256,192,1,1,0,0:0:0:0:\n" * 50)
+            elif existing == "shorter":
+                with open(p, "w", encoding="utf8") as fh:
+                    fh.write(OTHER_TEXT)
+            elif existing == "other_chart":
+                # another chart (the seven-key one, with 200 more objects) written to the path by write_file and read back by read_file first
+                try:
+                    with _quiet():
+                        mo = _read_text(_prior_text(OTHER_TEXT, "longer") + "\n".join("36,192,%d,1,0,0:0:0:0:" % (5000 + i) for i in range(150)))
+                        mo.write_file(Path(p) if fopt.get("path") == "Path" else p)
+                        OsuMap.read_file(Path(p) if fopt.get("path") == "Path" else p)
+                except Exception:  # noqa  (the other chart is not this case's business)
+                    pass
             try:
                 with _quiet():
                     m.write_file(Path(p) if fopt.get("path") == "Path" else p)
                 with open(p, encoding="utf8", newline="") as fh:
                     tf = fh.read()
                 if tf != t1:
-                    out.append(("file.write_file_text_is_write", f"file content differs from the joined write() at char {next((i for i, (a, b) in enumerate(zip(tf, t1)) if a != b), min(len(tf), len(t1)))}"))
+                    out.append((wf, f"file content differs from the joined write() at char {next((i for i, (a, b) in enumerate(zip(tf, t1)) if a != b), min(len(tf), len(t1)))}"))
             except Exception as ex:
-                out.append(("file.write_file_text_is_write", _exc(ex)))
+                out.append((wf, _exc(ex)))
             try:
                 with _quiet():
                     gr = chart_of(_read_text(t1))
@@ -1094,10 +1255,11 @@ def run_chart_case(spec, files=False):
                 try:
                     with _quiet():
                         gf = chart_of(OsuMap.read_file(Path(p) if fopt.get("path") == "Path" else p))
+                    rf = "file.read_file_is_read" if existing in (None, "longer") else "file.write_file_over_another_file"
                     if compare(gr, gf, 1e-9) or gf["meta"] != gr["meta"]:
-                        out.append(("file.read_file_is_read", str(compare(gr, gf, 1e-9) or "metadata differs")))
+                        out.append((rf, str(compare(gr, gf, 1e-9) or "metadata differs")))
                 except Exception as ex:
-                    out.append(("file.read_file_is_read", _exc(ex)))
+                    out.append((rf, _exc(ex)))
     # reading what was written
     try:
         with _quiet():
@@ -1109,7 +1271,14 @@ def run_chart_case(spec, files=False):
     for k, d in compare_meta_text_vs_memory(d1["meta"], back["meta"], "read"):
         out.append((f"read_after_write.metadata[{k}]", d))
     out += _drift(t1, d1)
+    if spec.get("then_edit"):
+        more, note = write_after_edit(spec, m, d1)
+        out += more
+        run_chart_case.edit_notes[note] = run_chart_case.edit_notes.get(note, 0) + 1
     return _uniq(out)
+
+
+run_chart_case.edit_notes = {}
 
 
 @bounded("C01", note="whole in-memory charts, every key count 1..18 -> REAL OsuMap.write (and write_file) -> den_osu: well-formed v14 text, same chart < 1 ms; REAL read of the written text gives the chart back; write/read generations 2..3 denote the same chart as the first written text (no drift)")
@@ -1121,7 +1290,9 @@ def wholemap_write_vs_denotation(rep):
                  f"incl. 1e-6, 1e6 and 12-digit values), 0..2 SVs (multipliers incl. negative, 0.001 and 100); 0..2 sample events; all metadata fields, texts incl. ':' ',' '#' '//' non-ASCII, full-width and Unicode white space inside the value, 0..4 tags incl. tags with "
                  f"U+3000 / U+00A0 / U+2003 / tab inside; a quarter of the charts leave 1..10 fields at the defaults of OsuMap(). For half of the charts EVERY list (hits, holds, tempo, SV, samples) independently gets other row labels / row order: gappy, reversed, "
                  f"permuted rows, sorted(), filtered (labels 1..n), duplicate labels; numbers as python int / float, all float, or numpy scalars; write_file / read_file with str and Path, onto a new file and over a longer existing one (a quarter of the cases); "
-                 f"a second write of the same object; a second chart of the same values edited and written in between (30 %)")
+                 f"a second write of the same object; a second chart of the same values edited and written in between (30 %); write_file over a longer file, over a shorter seven-key file, and over the file of another chart that was itself "
+                 f"written by write_file and read back (a third each); 30 % of the charts are, after the first write, changed through 1..3 of {len(EDIT_OPS)} public operations ({', '.join(EDIT_OPS)}: offsets through the list property and through the stack, "
+                 f"columns / bpm / multipliers in place, items appended, new / empty lists assigned, metadata set, rate(1.25)) and written again: the text must denote the chart as it is then; value range as for the texts")
     rep.rule = "a case is one whole chart (finite offsets, non-zero bpm, non-zero SV multipliers) and how it is held in memory; non-trivial when it has at least one object"
     for i in range(N):
         if rep.out_of_time(40, 320):
@@ -1130,6 +1301,7 @@ def wholemap_write_vs_denotation(rep):
         rep.case(spec, nontrivial=bool(spec["hits"] or spec["holds"]))
         for what, d in run_chart_case(spec, files=(i % 10 == 0)):
             rep.fail(what, spec, d)
+    rep.extra["charts written again after an edit"] = dict(run_chart_case.edit_notes)
 
 
 @replayer("wholemap_write_vs_denotation")
